@@ -737,6 +737,9 @@ PROPS = {
             "(blocks end exactly at the guard page for sizes that are multiples of the alignment, i.e. every Vec<u64>/Vec<u8>)",
             "Linux mmap/mprotect semantics",
             "inline assembly operand declarations are trusted (in(reg) size is modified inside the asm block: reading note in DESIGN.md)",
+            "fault model 'unwound operation, object kept': an object left by a documented-failure panic, and everything computed from it, is "
+            "held to memory safety only (no value, failure-class or termination oracle); iterate-until-zero operations are not run on such "
+            "operands and a watchdog hit inside such a step abandons the run without a verdict (counted as unwound.run_abandoned_on_hang)",
         ],
     ),
     "C16": dict(
